@@ -720,8 +720,8 @@ func (m *Memory) writeDb(rLocked bool) {
 	l := len(times)
 	m.SavePending.Add(-int32(l))
 
-	// fork
-	go func() {
+	// fork, unless syncing (the caller expects the records to be stored)
+	write := func() {
 		if rLocked {
 			defer m.syncMx.RUnlock()
 		}
@@ -786,7 +786,12 @@ func (m *Memory) writeDb(rLocked bool) {
 		if err != nil {
 			m.onErr(err)
 		}
-	}()
+	}
+	if rLocked {
+		go write()
+	} else {
+		write()
+	}
 }
 
 func (m *Memory) checkGc() {
